@@ -1,6 +1,7 @@
 """C03 - fitted polynomials: anchoring, continuity, bounds (the parts visible in
 the shape of the code; fit quality is not decided)."""
 import ast
+import itertools
 from fractions import Fraction as Fr
 
 from ..nf import Rat, C
@@ -483,7 +484,11 @@ def shomate_pipeline(run, repo, tables):
 
 def from_model(run, repo):
     n = 0
-    for qual, mod, extra in ((NASA + '.Nasa', NASA, {}), (NASA + '.Nasa9', NASA, {}), (SHO + '.Shomate', SHO, {})):
+    for (qual, mod, extra), behaviour in itertools.product(
+            ((NASA + '.Nasa', NASA, {}), (NASA + '.Nasa9', NASA, {}), (SHO + '.Shomate', SHO, {})),
+            ('vector', 'scalar', 'raises')):
+        # how the source model answers a call with the whole temperature grid: element by element, with one number
+        # (HarmonicVib when the number of modes equals the number of temperatures), or with ValueError
         ci = repo.cls(qual)
         owner, fn = repo.find_method(ci, 'from_model')
         run.fn(owner.qual + '.from_model')
@@ -494,6 +499,11 @@ def from_model(run, repo):
         def mk(mname):
             def h(I_, obj, args, kwargs):
                 T = kwargs.get('T', args[0] if args else None)
+                if isinstance(T, Elem) and mname == 'get_CpoR' and behaviour == 'scalar':
+                    return I_.D.sym('model.get_CpoR<one number for the whole grid>')
+                if isinstance(T, Elem) and mname == 'get_CpoR' and behaviour == 'raises':
+                    from ..xlate import _RaisedExc
+                    raise _RaisedExc(Raised('ValueError'))
                 if isinstance(T, Elem):
                     nm = 'model.%s[%r]' % (mname, T.r)
                     calls[nm] = T
@@ -531,6 +541,17 @@ def from_model(run, repo):
             kw['T_mid'] = tm
         r = I.call_function(owner.module, fn, [], kw, self_obj=ci, owner=owner, name=owner.qual + '.from_model')
         con = '%s.%s.from_model' % (mod.split('.')[-1], ci.name)
+        if behaviour != 'vector':
+            Tg, Cp = cap.get('T'), cap.get('CpoR')
+            okg = r == 'built' and isinstance(Tg, Elem) and isinstance(Cp, Elem) and isinstance(Cp.r, Rat) and \
+                isinstance(Tg.r, Rat) and same(Cp.r, Rat.atom('model.get_CpoR(%r)' % (Tg.r,)))
+            run.check(okg, 'DATAFLOW.cp-grid', con, 'grid, model not vectorised (%s)' % behaviour,
+                      'when the model answers the whole grid with %s the heat capacities handed to from_data must be '
+                      'the model sampled one temperature at a time; got %s'
+                      % ('a single number' if behaviour == 'scalar' else 'ValueError',
+                         show(Cp, 120) if r == 'built' else show(r)), owner.module, fn)
+            n += 1
+            continue
         if r != 'built' or not cap:
             run.fail('DATAFLOW.from_model', con, 'delegates', 'from_model does not hand its samples to from_data (%s)'
                      % show(r), owner.module, fn)
